@@ -36,7 +36,7 @@ RULE = ("Each run is one (die, netlist) instance - 3-9 modules (soft, fixed, ter
 COMPONENTS = {
     "real": ["tools.force.fruchterman_reingold (fruchterman_reingold_layout, force_algorithm, total_intersection_area)",
              "frame.die.Die, frame.netlist.Netlist (wire_length)"],
-    "stub": [],
+    "stub": ["tools.draw.draw.get_floorplan_plot as seen by the force tool (the plotting device of --visualize; returns a token)"],
     "simulator": ["world construction (prior history, global random state, GC regime, hash seed)",
                   "reference arg-min over the twelve spring constants on deep copies"],
 }
@@ -71,9 +71,15 @@ def gen_case(r, index, tier):
     terms = [m for m in mods if m["kind"] == "terminal" and "center" in m]
     if terms and cents and r.chance(0.4):
         cents[0]["center"] = terms[0]["center"]             # a soft module placed on a (possibly fixed) terminal
-    return {"engine": "c13", "die": die, "net": nl, "max_iter": r.weighted([(1, 2), (2, 1), (3, 1), (5, 2), (20, 3), (60, 2)]),
+    small = len(mods) <= 9
+    max_iter = r.weighted([(1, 2), (2, 1), (3, 1), (5, 2), (20, 3), (60, 2)] + ([(100, 0.3), (101, 0.3), (125, 0.3), (160, 0.2)] if small else []))
+    return {"engine": "c13", "die": die, "net": nl, "max_iter": max_iter,
             "kappa": r.choice([0.4, 0.7, 1.0, 1.5]), "hist_seed": r.below(1 << 30), "with_die_net": True,
-            "squares": r.chance(0.3), "alias": r.chance(0.5), "peek": r.chance(0.4)}
+            "squares": r.chance(0.3), "alias": r.chance(0.5), "peek": r.chance(0.4),
+            # the tool's --visualize: frames are drawn by the (stubbed) plotting device while the layout runs
+            "visualize": r.chance(0.5 if max_iter >= 100 else 0.2),
+            # incremental flow: relocate, pin some terminals where they ended up, relocate again
+            "pin": r.weighted([(0, 6), (1, 3), (2, 1)])}
 
 
 def units(case):
@@ -229,7 +235,12 @@ def _world(arg):
     before = sem.netlist_sem(d0.netlist, roles=True, order_rects=True, centers=False)
     before_c = _centres(d0)
 
-    def check(d, label):
+    vis = None
+    if case.get("visualize"):
+        vis = "sim.gif"
+        FR.get_floorplan_plot = lambda netlist, shape, *a, **kw: ("frame", netlist.num_modules)
+
+    def check(d, label, before=before, before_c=before_c):
         after = sem.netlist_sem(d.netlist, roles=True, order_rects=True, centers=False)
         if canon(after) != canon(before):
             viol.append({"property": "C13", "clause": "something other than centres changed", "key": {"entry": label},
@@ -251,14 +262,27 @@ def _world(arg):
     out = {}
     # entry 1: one layout with a given spring constant
     d1 = deepcopy(d0)
-    r1, _ = FR.fruchterman_reingold_layout(d1, case["kappa"], False, None, case["max_iter"])
+    r1, _ = FR.fruchterman_reingold_layout(d1, case["kappa"], False, vis, case["max_iter"])
     check(r1, "fruchterman_reingold_layout")
     out["layout"] = _centres(r1)
     # entry 2: force_algorithm
     d2 = deepcopy(d0)
-    r2, _ = FR.force_algorithm(d2, False, None, case["max_iter"])
+    r2, _ = FR.force_algorithm(d2, False, vis, case["max_iter"])
     check(r2, "force_algorithm")
     out["force"] = _centres(r2)
+    # phase 2: pin terminals where the first relocation left them, relocate the same objects again
+    out["pinned"] = None
+    terms = [m for m in r2.netlist.modules if m.is_terminal and not m.is_fixed and m.center is not None]
+    if case.get("pin") and terms:
+        for m in terms[:case["pin"]]:
+            m.is_fixed = True
+        b2 = sem.netlist_sem(r2.netlist, roles=True, order_rects=True, centers=False)
+        c2 = _centres(r2)
+        r3, _ = FR.fruchterman_reingold_layout(r2, case["kappa"], False, vis, min(case["max_iter"], 20))
+        check(r3, "second relocation after pinning", b2, c2)
+        r4, _ = FR.force_algorithm(deepcopy(r3), False, None, min(case["max_iter"], 5))
+        check(r4, "second relocation after pinning", b2, _centres(r3))
+        out["pinned"] = [_centres(r3), _centres(r4)]
     if world == "A":
         # reference arg-min over the twelve spring constants
         best, best_k, costs = float("inf"), None, []
@@ -303,7 +327,7 @@ def run_case(case):
             if not any(x["clause"] == v["clause"] for x in viol):
                 viol.append(v)
     for w in ("B", "C"):
-        for entry in ("layout", "force"):
+        for entry in ("layout", "force", "pinned"):
             if canon(results[w].get(entry)) != canon(results["A"].get(entry)):
                 viol.append({"property": "C13", "clause": "result differs between simulated worlds (not deterministic)",
                              "key": {"entry": entry},
@@ -321,6 +345,12 @@ def run_case(case):
         probes["coincident_centres"] = 1
     if any(m["kind"] == "terminal" for m in mods):
         probes["instance_with_terminal"] = 1
+    if results["A"].get("pinned"):
+        probes["relocated_again_after_pinning_a_terminal"] = 1
+    if case.get("visualize"):
+        probes["visualised_run"] = 1
+        if case["max_iter"] >= 100:
+            probes["visualised_run_with_100_or_more_iterations"] = 1
     wd = digest([results["A"].get("layout"), results["A"].get("force")])
     return _result(case, viol, hist, probes, True, wd)
 
